@@ -201,9 +201,20 @@ def main(argv=None):
     for k, floor in tierf.items():
         if obs.get(k, 0) < floor:
             inconclusive.append("monitor floor not reached: %s=%s < %s" % (k, obs.get(k, 0), floor))
-    for a in getattr(W, "ANCHORS", []):
-        if anchors.get(a, 0) == 0 and a not in getattr(W, "ANCHORS_OPTIONAL", []):
+    # Anchors: the entry points the workload calls (ANCHORS_REQUIRED) must have been reached; the internal helpers behind
+    # them are counted as evidence only - a refactoring that stops calling a helper does not make the observation void.
+    required = getattr(W, "ANCHORS_REQUIRED", None)
+    if required is None:
+        required = [a for a in getattr(W, "ANCHORS", []) if a not in getattr(W, "ANCHORS_OPTIONAL", [])]
+    unreached = [a for a in getattr(W, "ANCHORS", []) if anchors.get(a, 0) == 0]
+    for a in required:
+        if anchors.get(a, 0) == 0:
             inconclusive.append("anchored function never reached: %s" % a)
+    if getattr(W, "ANCHORS", []) and len(unreached) == len(W.ANCHORS):
+        inconclusive.append("no anchored function reached at all")
+    for a in unreached:
+        if a not in required:
+            lines.append("NOTE anchored helper not reached (evidence only): %s" % a)
     if inconclusive and exit_code == 0:
         exit_code = 2
         for r in inconclusive[:5]:
@@ -240,6 +251,8 @@ def main(argv=None):
                 "class_examples": class_examples,
                 "monitor_events": monitor_events,
                 "anchor_calls": anchors,
+                "anchors_required": list(required),
+                "anchor_helpers_not_reached": [a for a in unreached if a not in required],
                 "constructor_sites": dict(sorted(sites.items(), key=lambda kv: -kv[1])[:60]),
                 "outcomes": outcomes,
                 "relaxed_cases": relaxed,
